@@ -131,6 +131,12 @@ def rule_SER(FA):
                     for a in t['args']:
                         if 'c' in a and a['c'].startswith('"'):
                             names.add(a['c'].strip('"'))
+            stys = [t['f']['fn']['gargs'][-1] for b in ser['blocks'] for t in [b['t']]
+                    if t['k'] == 'call' and 'fn' in t['f'] and t['f']['fn']['name'] == 'serialize_field' and t['f']['fn'].get('gargs')]
+            wrappers = [x for x in stys if x not in [y['ty'] for y in adt['fields']]]
+            if wrappers:
+                out.append(Inst('R-SER', 'R-SER|%s|serialize uses field types' % base, 'violation', ser['span'],
+                                'a field of %s is serialized through a wrapper type (%s): hand-written field serializer outside the trusted derive' % (short, wrappers[0].split('::')[-1]), props))
             used = _self_fields_used(ser)
             missing = [x for x in fields if x not in names and x not in used]
             skipped = [x for x in fields if x not in names] if names else []
@@ -148,7 +154,17 @@ def rule_SER(FA):
             n = sum(1 for b in vs[0]['blocks'] for t in [b['t']] if t['k'] == 'call' and 'fn' in t['f'] and t['f']['fn']['name'] == 'next_element')
             key = 'R-SER|%s|visit_seq reads every field' % base
             nonphantom = [x for x in adt['fields'] if not (x['tags'] and x['tags'][0] == 'adt:std::marker::PhantomData')]
-            if n == len(fields) or n == len(nonphantom):
+            # element types requested from the sequence: the field types themselves, in order (a `deserialize_with`,
+            # `with`, `default` or `skip` attribute shows up as a wrapper type or a missing read)
+            etys = [t['f']['fn']['gargs'][-1] for b in vs[0]['blocks'] for t in [b['t']]
+                    if t['k'] == 'call' and 'fn' in t['f'] and t['f']['fn']['name'] == 'next_element' and t['f']['fn'].get('gargs')]
+            ftys = [x['ty'] for x in adt['fields']]
+            if (n == len(fields) or n == len(nonphantom)) and sorted(etys) != sorted(ftys) and sorted(etys) != sorted(x['ty'] for x in nonphantom):
+                odd = [e for e in etys if e not in ftys]
+                out.append(Inst('R-SER', key, 'violation', vs[0]['span'],
+                                'deserializer reads %s through a wrapper type (%s): a hand-written field deserializer is outside the trusted derive, so "deserialization accepts what serialization wrote" is not discharged' % (
+                                    short, ', '.join(x.split('::')[-1] for x in odd[:3])), props, sample={'element_types': etys, 'field_types': ftys}))
+            elif n == len(fields) or n == len(nonphantom):
                 out.append(Inst('R-SER', key, 'ok', vs[0]['span'], '%d next_element calls for %d fields' % (n, len(fields)), props))
             else:
                 out.append(Inst('R-SER', key, 'violation', vs[0]['span'], 'deserializer reads %d elements but %s has %d fields (a field is skipped or defaulted)' % (n, short, len(fields)), props))
